@@ -1029,3 +1029,27 @@ def gen_ctrl_step(rng):
         if c.get("step_by") is not None:
             c["step_by"] = pos[c["step_by"]]
     return {"comps": out, "end": unit * rng.choice([15, 20, 30])}
+
+
+def gen_relay_twice(rng):
+    """ONE output of a pull-based relay read over TWO links by one reader (a delayed "previous" value and the current
+    one), in either declaration order; the reader is a time component or a second relay in series."""
+    unit = rng.choice(UNITS)
+    sa = unit * rng.choice([1, 1, 2])
+    scc = sa * rng.choice([2, 3, 5])
+    d = max(1, min(rng.choice([sa, 2 * sa, scc - sa, scc]), scc))
+    prev = {"src": [1, 0], "chain": [["fixed", d]]}
+    now = {"src": [1, 0], "chain": [["pass"]] if rng.random() < 0.3 else []}
+    # the delayed link is declared FIRST: the relay's input then sees non-decreasing requests (t-d, t, t'-d, ...);
+    # the other order asks for t and then for t-d, which is the known finding F16 (history already released)
+    ins = [prev, now]
+    comps = [{"kind": "T", "start": 0, "steps": [sa], "initpull": False, "nout": 1, "inputs": []},
+             {"kind": "P", "nout": 1, "inputs": [{"src": [0, 0], "chain": []}]}]
+    if rng.random() < 0.3:
+        comps.append({"kind": "P", "nout": 1, "inputs": ins})              # a second relay "smoothing" the first
+        comps.append({"kind": "T", "start": 0, "steps": [scc], "initpull": False, "nout": 0, "inputs": [{"src": [2, 0], "chain": []}]})
+    else:
+        comps.append({"kind": "T", "start": 0, "steps": [scc], "initpull": rng.random() < 0.3, "nout": 0, "inputs": ins})
+    order = list(range(len(comps)))
+    rng.shuffle(order)
+    return {"comps": permute(comps, order), "end": scc * rng.choice([2, 3, 4])}
